@@ -15,7 +15,7 @@ Model of `srctools/fgd.py` on top of the shared tokenizer model:
   lex to — specification helpers, not part of the modelled code.
 
 Value types are positions in `TypeTab.values` (the `.value` texts of `ValueTypes`, tools/gen_fgdw.py);
-`str.casefold`, `str.upper` are parameters (`fold`, `up`), `str.strip`/`lstrip` are modelled for ASCII blanks.
+`str.casefold`, `str.upper` are parameters (`fold`, `up`), `str.strip`/`lstrip` remove the characters of `str.isspace`.
 Core Lean only (linked into drv_c16).
 -/
 namespace C16.KV
@@ -230,7 +230,12 @@ structure ParseCfg where
 def ParseCfg.foldStr (P : ParseCfg) (s : Str) : Str := s.flatMap P.fold
 def ParseCfg.upStr (P : ParseCfg) (s : Str) : Str := s.flatMap P.up
 
-def isBlank (c : Char) : Bool := c == ' ' || c == '\t' || c == '\n' || c == '\r' || c == '\x0b' || c == '\x0c'
+/-- `str.isspace` on one character: what `str.strip()` / `str.lstrip()` remove. -/
+def isBlank (c : Char) : Bool :=
+  c == ' ' || c == '\t' || c == '\n' || c == '\r' || c == '\x0b' || c == '\x0c' ||
+  (0x1c ≤ c.toNat && c.toNat ≤ 0x1f) || c.toNat == 0x85 || c.toNat == 0xa0 || c.toNat == 0x1680 ||
+  (0x2000 ≤ c.toNat && c.toNat ≤ 0x200a) || c.toNat == 0x2028 || c.toNat == 0x2029 || c.toNat == 0x202f ||
+  c.toNat == 0x205f || c.toNat == 0x3000
 
 def lstrip (s : Str) : Str := s.dropWhile isBlank
 def strip (s : Str) : Str := (lstrip (lstrip s).reverse).reverse
